@@ -193,7 +193,10 @@ func (c *Context) ActorOf(actor vivid.Actor, options ...vivid.ActorOption) (vivi
 		Type:     reflect.TypeOf(actor),
 	})
 
-	if status == killing {
+	// 子节点登记后需重新读取状态：根 Actor 的 ActorOf 可被任意协程调用，父 Actor 可能在入口处读取状态之后才进入停止流程，
+	// 其停止流程对子节点的遍历可能已经错过该子节点。若仍以入口处的状态为准，该子节点既不会被遍历到也不会在此处被结束，
+	// 父 Actor 将永远等不到子节点数量归零（Stop 超时），或在其之前被报告为已终止。
+	if status == killing || atomic.LoadInt32(&c.state) != running {
 		c.Kill(childCtx.ref, false, "parent killed")
 	}
 	return childCtx.Ref(), nil
